@@ -114,6 +114,13 @@ type Device struct {
 	SyncFeed chan *target.SyncUpdate
 }
 
+// Drop removes everything below p from the device without a Set call (somebody changed the device behind the server's back).
+func (d *Device) Drop(p IPath) int {
+	d.mu.Lock()
+	defer d.mu.Unlock()
+	return d.Config.ApplyDelete(p)
+}
+
 func NewDevice(initial Conf) *Device {
 	if initial == nil {
 		initial = Conf{}
